@@ -8,7 +8,17 @@
 ID=$1; SRC=/tmp/seed-out/$ID; OUT=/verif/seeded/$ID
 PROP=${2:-$(python3 -c "import json;print(json.load(open('$SRC/meta.json'))['property'])")}
 WT=/tmp/cs-$ID
-mkdir -p $OUT; cp -r $SRC/* $OUT/ 2>/dev/null
+mkdir -p $OUT
+[ -f $OUT/meta.json ] && cp $OUT/meta.json $OUT/.meta.prev
+cp -r $SRC/* $OUT/ 2>/dev/null
+if [ -f $OUT/.meta.prev ]; then python3 - <<PY
+import json
+old=json.load(open("$OUT/.meta.prev")); new=json.load(open("$OUT/meta.json"))
+for k in ("confirmed","previous_runs"):
+    if k in old: new[k]=old[k]
+json.dump(new,open("$OUT/meta.json","w"),indent=1)
+PY
+rm -f $OUT/.meta.prev; fi
 LOG=$OUT/confirm.log; : > $LOG
 git -C /repo worktree remove --force $WT >/dev/null 2>&1; rm -rf $WT
 git -C /repo worktree add --detach $WT HEAD >>$LOG 2>&1
@@ -36,6 +46,8 @@ git -C /repo worktree remove --force $WT >/dev/null 2>&1; rm -rf $WT
 python3 - <<PY
 import json
 m=json.load(open("$OUT/meta.json"))
+if "confirmed" in m:
+    m.setdefault("previous_runs",[]).append({"our_check_rc":m["confirmed"].get("our_check_rc"),"our_check_output":m["confirmed"].get("our_check_output",[])[:1]})
 m["confirmed"]={"build_rc":$BUILD,"stable_tests":"""$TESTS""".strip(),"demo_on_changed_rc":$DEMO_CHANGED,"demo_on_unchanged_rc":$DEMO_CLEAN,
   "our_check":"bin/vcheck $PROP --tier quick (VERIF_REPO=scratch worktree)","our_check_rc":$CHECK,
   "our_check_output":[l.strip()[:300] for l in open("$OUT/check.out") if l.startswith(("VIOLATION","OK","KNOWN"))][:4]}
